@@ -8,6 +8,7 @@ import (
 	"github.com/oasisprotocol/oasis-core/go/common/cbor"
 	"github.com/oasisprotocol/oasis-core/go/common/quantity"
 	governance "github.com/oasisprotocol/oasis-core/go/governance/api"
+	schedulerAPI "github.com/oasisprotocol/oasis-core/go/scheduler/api"
 	staking "github.com/oasisprotocol/oasis-core/go/staking/api"
 
 	"verifharness/internal/muxdrv"
@@ -23,8 +24,11 @@ type script struct {
 
 var scripts []*script
 
+// probeScripts run only through -replay (they are not part of the default streams)
+var probeScripts []*script
+
 func scriptByName(n string) *script {
-	for _, s := range scripts {
+	for _, s := range append(append([]*script{}, scripts...), probeScripts...) {
 		if s.name == n && n != "" {
 			return s
 		}
@@ -222,6 +226,98 @@ func init() {
 				bp.txs = append(bp.txs, plain(a[2].Key, 13), plain(a[3].Key, 14))
 			case 12:
 				yes(5)
+			}
+			return bp
+		},
+	})
+
+	// (5) Stakes below one voting-power unit (16 base units), stake NOT bypassed, thresholds 2 + 3:
+	// a SOLE validator whose escrow is reclaimed down to 10 base units, and a fresh entity with
+	// 9 base units that registers a validator node.  Both must get voting power 1.
+	scripts = append(scripts, &script{
+		name: "tinystake", blocks: 14,
+		knobs: func(k *knobs) {
+			baseKnobs(k)
+			k.Validators, k.Tiny, k.TinyRemainder, k.EpochInterval = 1, true, 7, 3
+		},
+		block: func(w *world, b int) *blockPlan {
+			g := w.g
+			bp := &blockPlan{proposer: 0, votes: muxdrv.VotesAll, votesTag: "all"}
+			local := map[staking.Address]uint64{}
+			fee := muxdrv.Fee(2, muxdrv.DefaultGas)
+			v0 := g.Validators[0]
+			switch b {
+			case 0:
+				// every delegator of the sole validator reclaims everything, the validator all but 10
+				for _, ai := range []int{0, 3, 6, 9} {
+					a := g.Accounts[ai]
+					if d, ok := w.prev.delegs[v0.EntityAddress()][a.Address]; ok {
+						bp.txs = append(bp.txs, genTx{raw: muxdrv.Sign(a.Key, staking.NewReclaimEscrowTx(w.nextNonce(a.Key, local), fee, &staking.ReclaimEscrow{Account: v0.EntityAddress(), Shares: d.Shares})), kind: "reclaim_escrow"})
+					}
+				}
+				if d, ok := w.prev.delegs[v0.EntityAddress()][v0.EntityAddress()]; ok {
+					sh := new(big.Int).Sub(d.Shares.ToBigInt(), big.NewInt(10))
+					bp.txs = append(bp.txs, genTx{raw: muxdrv.Sign(v0.Entity, staking.NewReclaimEscrowTx(w.nextNonce(v0.Entity, local), fee, &staking.ReclaimEscrow{Account: v0.EntityAddress(), Shares: qBig(sh)})), kind: "reclaim_escrow"})
+				}
+			case 6, 7, 8: // after the first election with the tiny sole validator: a tiny joiner
+				bp.txs = append(bp.txs, w.tinyJoiner(b-5, local)...)
+			}
+			return bp
+		},
+	})
+
+	// (probe, not part of the default run) genesis with the sqrt voting-power distribution and a
+	// validator stake of 2^100 (admissible: sqrt(supply) is below the cap); a passed scheduler
+	// parameter change switches to the LINEAR distribution.
+	probeScripts = append(probeScripts, &script{
+		name: "sqrtlinear", blocks: 12,
+		knobs: func(k *knobs) { baseKnobs(k); k.SqrtHuge = true },
+		block: func(w *world, b int) *blockPlan {
+			g := w.g
+			bp := &blockPlan{proposer: b % len(w.props), votes: muxdrv.VotesAll, votesTag: "all"}
+			local := map[staking.Address]uint64{}
+			fee := muxdrv.Fee(2, muxdrv.DefaultGas)
+			switch b {
+			case 0:
+				d := schedulerAPI.VotingPowerDistribution(schedulerAPI.VotingPowerDistributionLinear)
+				ch := schedulerAPI.ConsensusParameterChanges{VotingPowerDistribution: &d}
+				k := g.Accounts[1].Key
+				tx := governance.NewSubmitProposalTx(w.nextNonce(k, local), fee, &governance.ProposalContent{
+					Metadata:         &governance.ProposalMetadata{Title: "linear voting power"},
+					ChangeParameters: &governance.ChangeParametersProposal{Module: schedulerAPI.ModuleName, Changes: cbor.Marshal(ch)},
+				})
+				bp.txs = append(bp.txs, genTx{raw: muxdrv.Sign(k, tx), kind: "submit_change_params"})
+			case 1:
+				for _, v := range g.Validators {
+					bp.txs = append(bp.txs, genTx{raw: muxdrv.Sign(v.Entity, muxdrv.TxCastVote(w.nextNonce(v.Entity, local), fee, 1, governance.VoteYes)), kind: "cast_vote"})
+				}
+			}
+			return bp
+		},
+	})
+
+	// (probe) a passed scheduler parameter change sets MinValidators = 2 while MaxValidators = 1
+	probeScripts = append(probeScripts, &script{
+		name: "minmaxvalidators", blocks: 14, knobs: baseKnobs,
+		block: func(w *world, b int) *blockPlan {
+			g := w.g
+			bp := &blockPlan{proposer: b % len(w.props), votes: muxdrv.VotesAll, votesTag: "all"}
+			local := map[staking.Address]uint64{}
+			fee := muxdrv.Fee(2, muxdrv.DefaultGas)
+			switch b {
+			case 0:
+				mn, mx := 2, 1
+				ch := schedulerAPI.ConsensusParameterChanges{MinValidators: &mn, MaxValidators: &mx}
+				k := g.Accounts[1].Key
+				tx := governance.NewSubmitProposalTx(w.nextNonce(k, local), fee, &governance.ProposalContent{
+					Metadata:         &governance.ProposalMetadata{Title: "min 2 max 1"},
+					ChangeParameters: &governance.ChangeParametersProposal{Module: schedulerAPI.ModuleName, Changes: cbor.Marshal(ch)},
+				})
+				bp.txs = append(bp.txs, genTx{raw: muxdrv.Sign(k, tx), kind: "submit_change_params"})
+			case 1:
+				for _, v := range g.Validators {
+					bp.txs = append(bp.txs, genTx{raw: muxdrv.Sign(v.Entity, muxdrv.TxCastVote(w.nextNonce(v.Entity, local), fee, 1, governance.VoteYes)), kind: "cast_vote"})
+				}
 			}
 			return bp
 		},
